@@ -1,7 +1,7 @@
 SPECIFICATION Spec
 CONSTANTS MsgSrc <- S6  MsgMid <- M6  MsgTot <- T6  CapSrc = 2  CapAll = 3  MaxDeliv = 5  MaxTick = 3
   GridP <- GP  GridMM <- GM
-  DecOnComplete = TRUE  DupCheck = TRUE  TotalCheck = TRUE  CapStrict = TRUE  GcOn = TRUE
+  DecOnComplete = TRUE  DupCheck = TRUE  TotalCheck = TRUE  CapStrict = TRUE  GcOn = TRUE  IdEarly = TRUE
 INVARIANT NoViolation
 INVARIANT TableOk
 VIEW View
